@@ -127,6 +127,8 @@ def _run_item(case):
             li["config"] = {ident: {item: vals[0]}}
         if vals[1] is not None:
             li["set"] = {ident: {item: vals[1]}}
+        if len(case) > 7 and case[7]:                      # another item of the same rule, set beside it
+            li.setdefault("set", {}).setdefault(ident, {})[case[7][0]] = case[7][1]
         argv = write_layers(d, fmt, li)
         if strict:
             argv = ["--strict-config"] + argv
@@ -241,15 +243,46 @@ def run(ctx):
                         icases.append((rid, ident, it["name"], vals, strict, fmt_, False))
                         if vals != (None, None) and (ctx.tier == "thorough" or (zlib.crc32(repr((rid, ident, it["name"], vals, strict)).encode()) + ctx.seed) % 3 == 0):
                             icases.append((rid, ident, it["name"], vals, strict, fmt_, True))   # the way the rule is enabled must not change where its settings are looked up
+    # ... and beside every other item of the same rule set to a valid value that is not its default (an item is read and
+    # validated whatever the other items of the rule say)
+    for rid, r in sorted(rules.items()):
+        if not r["file"].startswith("rule_"):
+            continue
+        for b in r["items"]:
+            if b["default"] is None or b["valid"][0] == "opaque":
+                continue
+            if b["ty"] == "boolean":
+                bval = not b["default"]
+            else:
+                v = b["valid"]
+                ok = [c for c in candidates(b) if type(c) is type(b["default"]) and c != b["default"] and
+                      (v[0] == "none" or (v[0] == "range" and (v[1] is None or v[1] <= c) and (v[2] is None or c <= v[2])) or (v[0] == "in" and c in v[1]))]
+                if not ok:
+                    continue
+                bval = ok[0]
+            for it in r["items"]:
+                if it["name"] == b["name"]:
+                    continue
+                cands = candidates(it)
+                for v in cands[:2] + cands[-2:]:
+                    for strict in (False, True):
+                        icases.append((rid, r["id"], it["name"], (None, v), strict, "json", False, (b["name"], bval)))
+    for rid, r in sorted(rules.items()):
+        for it in r["items"]:
+            if it.get("conditional"):
+                ctx.broke(f"rule {rid}: the configuration item {it['name']} is read on some paths only (Gen/RuleTable.v and Model/Config.v take every item of a rule as read and validated); the item cases beside the rule's boolean items look for an input")
     ires = impl.pmap(_run_item, icases, chunksize=16)
     coq2, idx2 = [], []
     for i, (case, (code, val, err)) in enumerate(zip(icases, ires)):
-        rid, ident, item, vals, strict, fmt, cli_en = case
+        rid, ident, item, vals, strict, fmt, cli_en = case[:7]
+        gate = case[7] if len(case) > 7 else None
         it = next(x for x in rules[rid]["items"] if x["name"] == item)
         ctx.count(1, "item/" + it["ty"])
         inp = {"rule": rid, "ident": ident, "item": item, "config_layer": vals[0], "set_layer": vals[1], "strict": strict}
         if cli_en:
             inp["cli_enable"] = ident
+        if gate:
+            inp["beside"] = {gate[0]: gate[1]}
         ctx.seen(inp)
         # the documented behaviour, evaluated in Python for the modelled validators
         eff = vals[1] if vals[1] is not None else vals[0]
@@ -263,11 +296,19 @@ def run(ctx):
         else:
             want = (1, None) if strict else (0, show(it["default"]))
         got = (code, val if code == 0 else None)
+        if gate:
+            # beside another item only the exit status is judged: what a rule shows for an item may by design depend on its other
+            # items (md024's two names of one setting, md003's allow-setext-update that only counts under the consistent style)
+            if vals == (None, None):
+                continue
+            got, want = (got[0], None), (want[0], None)
         if got[1] is not None and got[1].endswith("\u2026") and want[1] is not None and want[1].startswith(got[1][:-1]):
             got = want
             val = want[1]
         if got != want:
             ctx.violation("item", inp, f"{rid}.{item}: exit/value {got}, documented behaviour gives {want}; stderr {err!r}", group="item-" + rid)
+        if gate:
+            continue
         layers = "[" + "; ".join(f"[(({cstr(ident)}, {cstr(item)}), {coq_value(x)})]" if x is not None else "[]" for x in vals) + "]"
         iti = [x["name"] for x in rules[rid]["items"]].index(item)
         if code == 0 and val is not None:
